@@ -152,6 +152,14 @@ func (p *c17) RunCase(ctx *runner.Ctx) runner.CaseResult {
 		} else {
 			failing++
 		}
+		for ai, o := range []adapt.Outcome{o1, o2} {
+			if o.ErrNotAPI {
+				// "the same error class": a class is what a caller can MATCH - awserr.Error in the SDK v1 client,
+				// smithy.APIError in the SDK v2 client; an error that only prints the class name is not of that class
+				x.viol("error-not-matchable", adapt.Adapters[ai]+"/"+op.Kind+"/"+o.Class, fmt.Sprintf("step %d %s: the %s client failed with %s (%s), but the error is no %s", i, mon.OpFeature(op), adapt.Adapters[ai], o.Class, o.Msg, []string{"awserr.Error", "smithy.APIError"}[ai]),
+					map[string]interface{}{"history": hist, "v1": o1, "v2": o2})
+			}
+		}
 		if outcomeCanon(o1) != outcomeCanon(o2) {
 			rule := "outcomes-differ"
 			feature := op.Kind + "/" + whatDiffers(o1, o2)
